@@ -25,6 +25,7 @@ type c12Scenario struct {
 	Reader    string
 	R         int
 	Undamaged bool
+	Combine   bool // file faults are injected in addition to the reader's misbehaviour
 }
 
 type c12Plan struct {
@@ -97,6 +98,23 @@ func c12Scenarios(tier string) []c12Scenario {
 					"a:" + idHex(1): entryBytes(1, d, 1700000000000000005), "d:" + outHex(d): dm.c}})
 				out = append(out, c12Scenario{Name: "damaged-" + dm.n + "-own/" + tag, ID: 1, Data: d, Pre: map[string][]byte{
 					"a:" + idHex(1): entryBytes(1, d, 1700000000000000006), "d:" + outHex(d): dm.c}})
+			}
+		}
+	}
+	// the output file was removed (as Trim may do) while an entry still names it; the source
+	// delivers other bytes of the same length on the second pass AND the run is stopped / faulted
+	// at every operation: the file must never reach its full size with unverified bytes
+	for _, d := range sizes {
+		if len(d) == 0 || (len(d) > 50000 && tier != "thorough") {
+			continue
+		}
+		tag := fmt.Sprintf("size%d", len(d))
+		for _, id := range []int{0, 1} {
+			pre := map[string][]byte{"a:" + idHex(1): entryBytes(1, d, 1700000000000000009)}
+			out = append(out, c12Scenario{Name: fmt.Sprintf("trimmed-output/id%d/%s", id, tag), Pre: pre, ID: id, Data: d, Undamaged: true})
+			for _, r := range []int{0, len(d) / 2, len(d) - 1} {
+				out = append(out, c12Scenario{Name: fmt.Sprintf("trimmed-output-diff2@%d/id%d/%s", r, id, tag), Pre: pre,
+					ID: id, Data: d, Reader: "diff2", R: r, Undamaged: true, Combine: true})
 			}
 		}
 	}
@@ -288,7 +306,10 @@ func (rn *c12Runner) runCase(sc *c12Scenario, plan *c12Plan, pre []wLookup, comp
 			}
 		}
 		if pre != nil && i != sc.ID && i < len(pre) && sc.Undamaged {
-			if pre[i].GetBytes != l.GetBytes || pre[i].GetFile != l.GetFile || pre[i].Get != l.Get {
+			// an unrelated entry that was readable must stay readable, unchanged
+			if (strings.HasPrefix(pre[i].GetBytes, "F") && pre[i].GetBytes != l.GetBytes) ||
+				(strings.HasPrefix(pre[i].GetFile, "F") && pre[i].GetFile != l.GetFile) ||
+				(strings.HasPrefix(pre[i].Get, "F") && pre[i].Get != l.Get) {
 				if out.impl == "" {
 					out.impl, out.oname = fmt.Sprintf("the lookups of the unrelated id%d changed: before %s / %s, after %s / %s", i, trunc(pre[i].GetBytes), pre[i].GetFile, trunc(l.GetBytes), l.GetFile), "failed-put-frame"
 				}
@@ -340,6 +361,9 @@ func (rn *c12Runner) runCase(sc *c12Scenario, plan *c12Plan, pre []wLookup, comp
 	var chunks [][]byte
 	if sc.Reader == "" || sc.Reader == "honest" {
 		chunks = chunk32k(sc.Data, len(sc.Data)-1)
+	} else if sc.Reader == "diff2" {
+		// the source answers every Read in full: the pieces do not depend on how far the run got
+		chunks = chunk32k(pass2Data(sc), len(sc.Data)-1)
 	} else {
 		if !resp.Seek1 {
 			seek1 = 0
@@ -604,12 +628,17 @@ func runC12(f *common.Flags, res *common.Result, m *mdl) {
 		}
 		if sc.Reader != "" {
 			res.Count("reader-fault:" + sc.Reader)
-			continue
+			if !sc.Combine {
+				continue
+			}
 		}
 		for k := 0; k < base.nops; k++ {
 			op := base.log[k]
 			var plans []c12Plan
 			plans = append(plans, c12Plan{k, "fail", 0}, c12Plan{k, "stopbefore", 0}, c12Plan{k, "stopafter", 0})
+			if sc.Combine && op.Name != "write" {
+				plans = plans[1:] // two faults at once: stops (and torn writes) only
+			}
 			switch op.Name {
 			case "write":
 				for _, j := range []int{0, 1, op.N / 2, op.N - 1} {
@@ -649,5 +678,5 @@ func runC12(f *common.Flags, res *common.Result, m *mdl) {
 			}
 		}
 	}
-	res.Rule = fmt.Sprintf("%d scenarios (new entry, overwrite, same content again, output shared with another id, partial output left by an earlier interruption, pre-damaged outputs: truncated / bit-flipped / longer / emptied; sizes 0, 1, 2, 5000, 100000; source-reader faults: error at offset r in either pass, early EOF, different bytes on the second pass, Seek failures); in each scenario without reader fault EVERY file operation of the real Put (observed through the os shim) is made to fail, to be a short write / short read, and the run is stopped before it, after it and in the middle of a write; after each, all lookups run in a fresh Cache value; compared with the faulty semantics of the model: result, operation trace, all lookups, contents of all files; direct oracles: SHA-256 of GetBytes, size of GetFile's file, from undamaged starts SHA-256 of GetFile's file, unrelated ids unchanged, no panic", len(scs))
+	res.Rule = fmt.Sprintf("%d scenarios (an entry whose output file was removed, as Trim may do, with a source that delivers other bytes of the same length on the second pass AND a stop at every operation; new entry, overwrite, same content again, output shared with another id, partial output left by an earlier interruption, pre-damaged outputs: truncated / bit-flipped / longer / emptied; sizes 0, 1, 2, 5000, 100000; source-reader faults: error at offset r in either pass, early EOF, different bytes on the second pass, Seek failures); in each scenario without reader fault EVERY file operation of the real Put (observed through the os shim) is made to fail, to be a short write / short read, and the run is stopped before it, after it and in the middle of a write; after each, all lookups run in a fresh Cache value; compared with the faulty semantics of the model: result, operation trace, all lookups, contents of all files; direct oracles: SHA-256 of GetBytes, size of GetFile's file, from undamaged starts SHA-256 of GetFile's file, unrelated ids unchanged, no panic", len(scs))
 }
